@@ -55,8 +55,8 @@ def _params(rng, scheme):
     if scheme == "ConstantZeroth":
         return {"coefficient_neighbor": c(), "coefficient_zeroth": c()}
     if scheme in ("AdaptiveBrightness", "AdaptiveBrightnessSplit"):
-        return {"inner_coefficient": float(rng.choice([0.01, 0.1, 1.0, 10.0])),
-                "outer_coefficient": float(rng.choice([0.01, 0.1, 1.0, 10.0])),
+        return {"inner_coefficient": float(rng.choice([1e-5, 1e-3, 0.01, 0.1, 1.0, 10.0])),
+                "outer_coefficient": float(rng.choice([1e-5, 1e-3, 0.01, 0.1, 1.0, 10.0])),
                 "signal_scale": float(rng.choice([0.5, 1.0, 2.0]))}
     if scheme == "BrightnessZeroth":
         return {"coefficient": c(), "signal_scale": float(rng.choice([0.5, 1.0, 2.0]))}
